@@ -12,6 +12,16 @@ R33.1  Specialisation of the interpreter: for every %cmd% of the match compiler'
          c. at the return and at the fall-through the pattern pointer has advanced by exactly len("%cmd%").
 R33.2  Vocabulary: the commands the property names (%name% %var% %num% %op% %or% %oror% %varid%) are in the compiler's table.
 
+R33.3  Literal words: for a word w of tools/matchcompiler.py::tokTypes that lists eKeyword the compiled matcher tests
+       `tokType() == eKeyword && str() == w`, the interpreter only `str() == w`.  Token::update_property_info gives a name token
+       eKeyword only if TokenList::isKeyword(w) (or w is its special-cased "asm"), i.e. only if w is in Keywords::getAll(std) of the
+       language standard in force.  Obligation per word: w is in every set Keywords::getAll can return (all C and all C++
+       standards; lib/keywords.cpp after preprocessing, the sets resolved through the `return` statements of the two getAll
+       overloads) and not in isKeyword's "types are not keywords" exclusion - otherwise under the standard that lacks it the
+       compiled pattern stops matching where the interpreted one still matches.  The obligation is per (word, language): a word
+       that the compiled lib/ patterns can only meet in one language is not excused (patterns are shared).
+       Two words of the pinned tree do not satisfy it and are tabled, one line of reason each, in R33_WORD_TABLE below.
+
 Tabled equivalence (one line of reason): %varid% - the compiled test additionally calls isName(); Token::varId(id) sets the token
 type to eVariable for id != 0, for which isName() is true, and varid 0 is rejected by both matchers, so the conjunct is implied.
 """
@@ -242,8 +252,95 @@ class Spec:
         return None
 
 
+# word -> (standard sets it may be missing from (prefix of the set name), reason, structural condition checked on every run)
+R33_WORD_TABLE = {
+    'inline': (('c89',), 'Tokenizer::simplifyKeyword deletes every `inline` token for every language and standard before any check pattern runs '
+                          '(the file-static set `keywords` of lib/tokenize.cpp lists it unconditionally); condition: that set still lists it',
+               'simplifyKeyword-removes'),
+}
+
+
+def py_toktypes(root):
+    path = os.path.join(root, 'tools', 'matchcompiler.py')
+    tree = ast.parse(open(path).read())
+    for n in tree.body:
+        if isinstance(n, ast.Assign) and len(n.targets) == 1 and isinstance(n.targets[0], ast.Name) and n.targets[0].id == 'tokTypes' \
+                and isinstance(n.value, ast.Dict):
+            out = {}
+            for k, v in zip(n.value.keys, n.value.values):
+                if isinstance(k, ast.Constant) and isinstance(v, ast.List):
+                    out[k.value] = ([e.value for e in v.elts if isinstance(e, ast.Constant)], k.lineno)
+            return out
+    raise AnalysisBroken('tools/matchcompiler.py: the tokTypes table is gone')
+
+
+def keyword_sets(root):
+    """lib/keywords.cpp after preprocessing: name -> set of words, and per getAll overload the sets it can return."""
+    import subprocess
+    src = os.path.join(root, 'lib', 'keywords.cpp')
+    r = subprocess.run(['clang++', '-E', '-P', '-std=c++11', '-nostdinc++', '-I', os.path.join(root, 'lib'), src],
+                       capture_output=True, text=True)
+    txt = r.stdout
+    sets = {}
+    for m in re.finditer(r'static\s+const\s+std::unordered_set<std::string>\s+(\w+)\s*=\s*\{(.*?)\};', txt, re.S):
+        sets[m.group(1)] = set(re.findall(r'"((?:[^"\\]|\\.)*)"', m.group(2)))
+    ret = {}
+    for m in re.finditer(r'Keywords::getAll\s*\(\s*Standards::(\w+)\s+\w+\s*\)\s*\{(.*?)\n\}', txt, re.S):
+        ret[m.group(1)] = re.findall(r'return\s+(\w+)\s*;', m.group(2))
+    return sets, ret
+
+
+def iskeyword_exclusions(F):
+    """string literals of the static sets inside TokenList::isKeyword, split by the isCPP() branch they sit in."""
+    cands = [g for g in F.find('TokenList::isKeyword') if F.body(g) is not None]
+    if len(cands) != 1:
+        raise AnalysisBroken('TokenList::isKeyword: %d definitions' % len(cands))
+    excl = {}
+    for n in walk(F.body(cands[0])['body']):
+        if n.get('k') == 'VarDecl' and n.get('static') and 'unordered_set' in (n.get('t') or ''):
+            excl[n.get('n')] = set(x.get('v', '') for x in walk(n) if x.get('k') == 'StringLiteral')
+    return excl, cands[0]
+
+
+def r33_3(ctx, F):
+    ctx.rule('R33.3', 'every word of the match compiler\'s tokTypes table typed eKeyword is a keyword (TokenList::isKeyword) under every C and every C++ standard '
+                      'Keywords::getAll can return; otherwise the compiled pattern requires a token type the tokenizer does not assign under that standard')
+    tt = py_toktypes(F.root)
+    words = {w: v for w, v in tt.items() if re.match(r'^[A-Za-z_]\w*$', w) and 'eKeyword' in v[0]}
+    ctx.floor('R33.3 eKeyword words in tokTypes', len(words), 20)
+    sets, ret = keyword_sets(F.root)
+    if set(ret) != {'cstd_t', 'cppstd_t'} or any(len(v) < 5 for v in ret.values()) or any(n not in sets for v in ret.values() for n in v):
+        raise AnalysisBroken('lib/keywords.cpp: the two Keywords::getAll overloads / their sets were not resolved (%s)' % {k: len(v) for k, v in ret.items()})
+    ctx.floor('R33.3 keyword sets returned by Keywords::getAll', sum(len(v) for v in ret.values()), 13)
+    excl, isk = iskeyword_exclusions(F)
+    if len(excl) != 2:
+        raise AnalysisBroken('TokenList::isKeyword: expected the two exclusion sets (c_types, cpp_types), found %s' % sorted(excl))
+    ex_c = set().union(*[v for k, v in excl.items() if k.startswith('c_')])
+    ex_cpp = set().union(*[v for k, v in excl.items() if k.startswith('cpp')])
+    tokenize = ctx.read('lib/tokenize.cpp')
+    m = re.search(r'static\s+const\s+std::unordered_set<std::string>\s+keywords\s*=\s*\{(.*?)\};', tokenize, re.S)
+    removed = set(re.findall(r'"(\w+)"', m.group(1))) if m else set()
+    for w, (types, line) in sorted(words.items()):
+        missing = []
+        for lang, names in sorted(ret.items()):
+            ex = ex_c if lang == 'cstd_t' else ex_cpp
+            for nme in names:
+                if (w not in sets[nme] or w in ex) and w != 'asm':
+                    missing.append(nme.replace('_keywords_all', ''))
+        tab = R33_WORD_TABLE.get(w)
+        if missing and tab and all(any(x.startswith(p) for p in tab[0]) for x in missing) and w in removed:
+            ctx.note('R33.3 tabled word %r (not a keyword under %s): %s' % (w, ','.join(missing), tab[1]))
+            missing = []
+        ok = not missing
+        ctx.ob('R33.3', 'keyword-every-standard:%s' % w, ok, ('%r is a keyword under every standard (or tabled with a checked condition)' % w) if ok else
+               ('tools/matchcompiler.py:%s types the literal word %r as eKeyword, but TokenList::isKeyword(%r) is false under %s (lib/keywords.cpp): there '
+                'Token::update_property_info makes it eName/eVariable, the compiled `tokType() == Token::eKeyword && str() == "%s"` fails and the interpreted '
+                'matcher (string comparison) still matches' % (line, w, w, ','.join(missing), w)), 'tools/matchcompiler.py:%s' % line)
+
+
 def run(ctx):
     F = ctx.facts
+    r33_3(ctx, F)
     ctx.rule('R33.1', 'for every %cmd% the interpreter (multiComparePercent, specialised to the command) and the match compiler (_compileCmd) test the same Token predicates, '
                       'and the interpreter consumes exactly the command')
     ctx.rule('R33.2', 'the commands the property names are in the match compiler\'s table')
